@@ -1,9 +1,91 @@
 import AioModel.Wire
-/-! Driver commands of property C18 (stub until the model exists). -/
+import AioModel.C18
+/-! Driver commands of property C18.
+`run k=v … @t:ev;ev @t:ev …` → one line of canonical observables (see harness/c18.py). -/
 namespace Aio.Driver.C18
-open Aio Aio.Wire
+open Aio Aio.Wire Aio.C18
+
+def optNat (s : String) : Option (Option Nat) :=
+  if s == "-" then some none else (s.toNat?).map some
+
+def parseKV (cfg : Cfg × Bool) (tok : String) : Option (Cfg × Bool) :=
+  match tok.splitOn "=" with
+  | ["total", v] => (optNat v).map fun x => ({ cfg.1 with total := x }, cfg.2)
+  | ["connect", v] => (optNat v).map fun x => ({ cfg.1 with connect := x }, cfg.2)
+  | ["sc", v] => (optNat v).map fun x => ({ cfg.1 with sockConnect := x }, cfg.2)
+  | ["sr", v] => (optNat v).map fun x => ({ cfg.1 with sockRead := x }, cfg.2)
+  | ["limit1", v] => some ({ cfg.1 with limit1 := parseBool v }, cfg.2)
+  | ["dns", v] => some ({ cfg.1 with useDns := parseBool v }, cfg.2)
+  | ["naddr", v] => v.toNat?.map fun x => ({ cfg.1 with naddr := x }, cfg.2)
+  | ["wstall", v] => some ({ cfg.1 with wstall := parseBool v }, cfg.2)
+  | ["think", v] => v.toNat?.map fun x => ({ cfg.1 with think := x }, cfg.2)
+  | ["buf", v] => v.toNat?.map fun x => ({ cfg.1 with bufsize := x }, cfg.2)
+  | ["co", v] => some (cfg.1, parseBool v)
+  | _ => none
+
+def parseEv (s : String) : Option Ev :=
+  match s with
+  | "H" => some .startH
+  | "R" => some .startR
+  | "C" => some .startC
+  | "HR" => some .holderRelease
+  | "D" => some .dnsAnswer
+  | "W" => some .writeResume
+  | "X" => some .cancel
+  | "XL" => some .cancelLate
+  | _ =>
+    if s.startsWith "K" then (s.drop 1).toNat?.map Ev.connDone
+    else if s.startsWith "B" then
+      match ((s.drop 1).toString.splitOn ".").mapM (·.toNat?) with
+      | some [n, hd, bb, eof] => some (.bytes { n := n, headDone := hd == 1, bodyBytes := bb, eof := eof == 1 })
+      | _ => none
+    else none
+
+def parseInstant (tok : String) : Option (Nat × List Ev) :=
+  if !tok.startsWith "@" then none else
+  match (tok.drop 1).toString.splitOn ":" with
+  | [t, evs] => do
+    let t ← t.toNat?
+    let evs ← (evs.splitOn ";").mapM parseEv
+    pure (t, evs)
+  | _ => none
+
+def showOutcome : Outcome → String
+  | .ok => "ok" | .timeout => "E_TIMEOUT" | .connTimeout => "E_CONN_TIMEOUT"
+  | .sockTimeout => "E_SOCK_TIMEOUT" | .cancelled => "E_CANCELLED"
+
+def showC : CPc → String
+  | .none => "none" | .ok => "ok" | .failed => "E_FAILED" | .cancelled => "E_CANCELLED"
+  | _ => "pending"
+
+def render (cfg : Cfg) (s : St) : String :=
+  let r := match s.pc with
+    | .done o t => s!"{showOutcome o}@{t}"
+    | _ => "pending@-1"
+  let hdr := match s.hdrAt with | some t => toString t | none => "-1"
+  let live := (if s.pc.isDone || s.pc = .idle then [] else ["R"]) ++ (if s.wr = .parked then ["task"] else [])
+  let live := if live.isEmpty then "-" else ",".intercalate live
+  let follow := if !s.pc.isDone then "n/a" else if cfg.limit1 && s.slot != .none then "E_TIMEOUT" else "ok"
+  s!"r={r} hdr={hdr} c={showC s.cpc} acq={if s.slot = .none then 0 else 1} wait={s.poolQ.length} " ++
+  s!"pooled={if s.pooled && s.tr = .open then 1 else 0} open={if s.tr = .open then 1 else 0} live={live} " ++
+  s!"dnsw={(if s.dnsWaitR then 1 else 0) + (if s.dnsWaitC then 1 else 0)} " ++
+  s!"lookups={match s.lookup with | .none => 0 | _ => 1} dnscalls={s.dnsCalls} follow={follow}"
 
 def handle : List String → String
+  | "run" :: rest =>
+    let kvs := rest.filter (fun t => !t.startsWith "@")
+    let ins := rest.filter (fun t => t.startsWith "@")
+    match kvs.foldlM parseKV (({} : Cfg), false), ins.mapM parseInstant with
+    | some (cfg, co), some tl =>
+      let s := observe cfg (run cfg (init co) tl)
+      render cfg s
+    | _, _ => "bad-op"
+  | ["ceil", kind, now, d] =>
+    match now.toNat?, d.toNat? with
+    | some now, some d =>
+      if kind == "total" then toString (totalDeadline now d)
+      else if kind == "ctx" then toString (ctxDeadline now d) else "bad-op"
+    | _, _ => "bad-op"
   | _ => "bad-op"
 
 end Aio.Driver.C18
